@@ -22,7 +22,7 @@ type Case struct {
 
 func gen(t *rapid.T) Case {
 	cfg := pat.GenCfg(t, false)
-	n := rapid.IntRange(1, 14).Draw(t, "npat")
+	n := rapid.IntRange(1, rig.Up(14)).Draw(t, "npat")
 	pool := pat.GenPool(t, cfg, n)
 	c := Case{Icpt: cfg.IcptName, Patterns: pool}
 	c.Order2 = rapid.Permutation(seq(len(pool))).Draw(t, "order2")
